@@ -5,11 +5,88 @@ only.  Nothing here touches the subject (/repo).
    dies with CrossHairInternal whenever a regex matches the empty string on a string that
    is a lazily evaluated slice (e.g. a line obtained by str.split).  The copy below takes
    the length with tracing resumed.
+
+2. LazyIntSymbolicStr.__eq__ compares the code-point containers of two symbolic strings with
+   `==`; the containers come in list flavour and in tuple flavour and SymbolicList.__eq__
+   answers False for a non-list, so two equal strings can compare unequal (for symbolic s,
+   `(s + '\\n')[:-1] == s` is reported False with a counterexample that does not reproduce).
+   Found independently by the C05 and C14 harness work.  The replacement compares the code
+   points irrespective of the flavour of their containers.
+
+3. CrossHair replaces builtin `hash` by a function whose docstring carries a PEP 316 contract;
+   under analysis kind PEP316 every traced `hash(x)` (e.g. pathlib.PurePath.__hash__, hit by
+   every dict / set keyed by paths) may then be "short-circuited" to a FREE symbolic int, which
+   makes dict look-ups fork without bound (CANNOT_CONFIRM) or raise TypeError.  The
+   work-around makes CrossHair never short-circuit `_hash`: the real hash is always computed -
+   strictly more precise, nothing is assumed.  Found by the C15 / C16 harness work.
 """
 import operator
 
 
 def apply():
+    _fix_relib()
+    _fix_str_eq()
+    _fix_hash_shortcircuit()
+
+
+def _fix_str_eq():
+    from crosshair.libimpl import builtinslib as bl
+    from crosshair.tracers import NoTracing, ResumedTracing
+    if getattr(bl, '_c14_str_eq_fixed', False):
+        return
+    LazyIntSymbolicStr = bl.LazyIntSymbolicStr
+    SymbolicBoundedIntTuple = bl.SymbolicBoundedIntTuple
+
+    def _codepoints_eq(a, b):
+        if a is b:
+            return True
+        if a.__len__() != b.__len__():
+            return False
+        for x, y in zip(a, b):
+            if x is y:
+                continue
+            if x != y:
+                return False
+        return True
+
+    def __eq__(self, other):
+        with NoTracing():
+            mypoints = self._codepoints
+            if isinstance(other, LazyIntSymbolicStr):
+                otherpoints = other._codepoints
+            elif isinstance(other, str):
+                otherpoints = [ord(ch) for ch in other]
+            else:
+                return NotImplemented
+            mine_is_sbit = isinstance(mypoints, SymbolicBoundedIntTuple)
+            other_is_sbit = isinstance(otherpoints, SymbolicBoundedIntTuple)
+            with ResumedTracing():
+                if mine_is_sbit:
+                    return mypoints.__eq__(otherpoints)
+                if other_is_sbit:
+                    return otherpoints.__eq__(mypoints)
+                return _codepoints_eq(mypoints, otherpoints)
+
+    LazyIntSymbolicStr.__eq__ = __eq__
+    bl._c14_str_eq_fixed = True
+
+
+def _fix_hash_shortcircuit():
+    import crosshair.core as core
+    orig = core.consider_shortcircuit
+    if getattr(orig, '_c15_patched', False):
+        return
+
+    def consider_shortcircuit(fn, *a, **kw):
+        if getattr(fn, '__name__', '') == '_hash' and kw.get('allow_interpretation', True):
+            return None
+        return orig(fn, *a, **kw)
+
+    consider_shortcircuit._c15_patched = True
+    core.consider_shortcircuit = consider_shortcircuit
+
+
+def _fix_relib():
     from crosshair.libimpl import relib
     from crosshair.tracers import ResumedTracing, is_tracing
 
